@@ -57,13 +57,13 @@ pub fn sample_covariance_online(x: &[f64], y: &[f64]) -> f64 {
     for (i, j) in x.iter().zip(y.iter()) {
         n += 1.;
         let dx = i - meanx;
-        let dy = j - meany;
         meanx += dx / n;
-        meany += dy / n;
-        c += dx * dy;
+        meany += (j - meany) / n;
+        // deviation of x from the old mean times deviation of y from the updated mean
+        c += dx * (j - meany);
     }
 
-    c / n
+    c / (n - 1.)
 }
 
 #[cfg(test)]
